@@ -152,7 +152,7 @@ func rewrite(path string) (int, error) {
 				_ = name
 				x.X = ast.NewIdent("verifrt")
 				n++
-			} else if name, ok := pkgSel(x, syncName); ok && name == "Mutex" {
+			} else if name, ok := pkgSel(x, syncName); ok && (name == "Mutex" || name == "RWMutex") {
 				x.X = ast.NewIdent("verifrt")
 				n++
 			} else if *doFiles {
